@@ -20,7 +20,7 @@ def run(pf):
         return pf, out
     finally:
         shutil.rmtree(sc, ignore_errors=True)
-files = sorted(glob.glob(os.path.join(d, '*.diff')))
+files = sorted(glob.glob(os.path.join(os.path.abspath(d), '*.diff')))
 with concurrent.futures.ThreadPoolExecutor(max_workers=6) as ex:
     for pf, out in ex.map(run, files):
         print(os.path.basename(pf), 'OK' if out == [] else out)
